@@ -4,6 +4,7 @@ import Uom.Proofs.FlConvIdentity
 import Uom.Proofs.KernelFloat
 import Uom.Proofs.FlCanonical
 import Uom.Proofs.FlFold
+import Uom.Proofs.BodyEq.Conv
 /-!
 # C03 — unit conversion on construction and read-back is numerically faithful (floats)
 
@@ -138,5 +139,30 @@ example : Fl.Canonical b64 (Fl.zero b64 true) ∧ Fl.Canonical b64 (Fl.ofBits b6
 /-- non-vacuity / sanity: 1 km in SI base units is stored as exactly 1000.0 (binary64) -/
 example : Fl.toBits b64 (toBase (flS b64) (Fl.ofBits b64 0x408f400000000000) (Fl.zero b64 true) (Fl.one b64)
     (Fl.ofBits b64 0x3ff0000000000000)) = 0x408f400000000000 := by decide +kernel
+
+/-! ### tie to the source: the function bodies regenerated from /repo/src on this run
+
+`Gen.Body.*` below is what the translator read from the Rust source just now; `Body.run` evaluates it
+over any storage type.  These theorems state the property's code path *for the regenerated bodies*:
+they fail to check as soon as the source computes something else. -/
+section SourceTie
+open Uom.Body Uom.Gen.Body
+
+/-- `Q::new::<N>(v)` and `q.get::<N>()` are `toBase` / `fromBase` — the functions every theorem of this
+    file is about — for every storage type, unit and base-unit set -/
+theorem src_new (N : NumTy) (env : Env N) (v : N.S.V) :
+    run N env quantity_inherent_quantity_new [argV v]
+      = argQ (toBase N.S env.nCoef env.nConsA (env.bf .U .Dimension) v) := BodyEq.new_eq N env v
+theorem src_get (N : NumTy) (env : Env N) (a : N.S.V) :
+    run N env quantity_inherent_quantity_get [argQ a]
+      = argV (fromBase N.S env.nCoef env.nConsS (env.bf .U .Dimension) a) := BodyEq.get_eq N env a
+theorem src_to_base (N : NumTy) (env : Env N) (v : N.S.V) :
+    run N env system_free_to_base [argV v] = argV (toBase N.S env.nCoef env.nConsA (env.bf .U .D) v) :=
+  BodyEq.to_base_eq N env v
+theorem src_from_base (N : NumTy) (env : Env N) (v : N.S.V) :
+    run N env system_free_from_base [argV v] = argV (fromBase N.S env.nCoef env.nConsS (env.bf .U .D) v) :=
+  BodyEq.from_base_eq N env v
+
+end SourceTie
 
 end Uom.C03
